@@ -215,7 +215,9 @@ func (o *orC06) onIterLeave(it *iterRec) {
 		o.pendingDelete = nil
 		// (C06 is stated for coordination calls that succeed: a manager cut from ZooKeeper or
 		// hit by a failing call between the delete and the record is C07's subject)
-		if r.terminal == "" && it.faults == 0 && m.s.spec.CrashAt == nil {
+		if r.terminal == "" && !(it.faults == 0 && m.s.spec.CrashAt == nil) {
+			r.terminal = "lost-by-fault" // gone from the tree, no longer pending
+		} else if r.terminal == "" {
 			m.violate("C06", "lost_outcome", "request-deleted-by-manager-without-record", fmt.Sprintf("%s deleted %s without writing last_switch/last_rejected_switch", it.inc, r.key))
 			r.terminal = "lost"
 		}
